@@ -157,6 +157,16 @@ pub fn spec_library() -> ParsingLibrary {
             .collect::<FxHashMap<_, _>>()
 }
 
+/// Verification hook: the specification regexes behind the shipped (serialised) automata, so
+/// that "shipped automaton = compilation of its specification" can be checked from outside.
+#[cfg(feature = "verif-hooks")]
+pub fn verif_spec_regexes() -> Vec<(StdLibParser, Regex, &'static [u8])> {
+    spec_library_data()
+        .iter()
+        .map(|(name, spec, serialization)| (*name, spec(), *serialization))
+        .collect()
+}
+
 // Regex formalising the spec of `StdLIbParser::Jwt`.
 fn spec_jwt() -> Regex {
     // Content of a basic field (RFC 8259 JSON string), possibly marked if `marker`
